@@ -114,6 +114,14 @@ def choleskyForward (cholEx : (Nat → Nat → α) → (Nat → Nat → α) × N
   let Fi := cholEx A
   if Fi.2 ≠ 0 then .error "assert:cholesky-failed" else .ok (cholSolveK Fi.1 b)
 
+/-- `Cholesky.forward` on a batch: `cholesky_ex` factors every item, ONE assertion covers the whole batch
+(`torch.any(info != 0)`), then `cholesky_solve` on every item. -/
+def choleskyForwardBatch (cholEx : (Nat → Nat → α) → (Nat → Nat → α) × Nat)
+    (cholSolveK : (Nat → Nat → α) → (Nat → α) → Tab α)
+    (items : List ((Nat → Nat → α) × (Nat → α))) : Except String (List (Tab α)) :=
+  if items.any (fun it => (cholEx it.1).2 != 0) then .error "assert:cholesky-failed"
+  else .ok (items.map fun it => cholSolveK (cholEx it.1).1 it.2)
+
 /-- the instance the driver runs -/
 def choleskyForwardStd (n : Nat) (upper : Bool) (A : Nat → Nat → α) (b : Nat → α) : Except String (Tab α) :=
   choleskyForward (cholExStd n upper) (cholSolveStd n upper) A b
